@@ -62,7 +62,11 @@ impl Monitor for C02 {
                 if delegated != payment {
                     out.violation(P, "bond_delegated_in_full", format!("{} of {} sent with {} but {} delegated", payment, USEI, &e.msg, delegated));
                 }
-                let reg: Vec<&String> = c.pre.registry.iter().map(|x| &x.0).collect();
+                // registered = listed by the registry's query or held in its storage (a query may list a shortlist only)
+                let mut reg: Vec<&String> = c.pre.registry.iter().map(|x| &x.0).collect();
+                if let Some(raw) = &c.pre.raw_registry {
+                    reg.extend(raw.iter());
+                }
                 for t in &targets {
                     if !reg.contains(&t) {
                         out.violation(P, "only_registered_validators", format!("bond delegated to {} which is not registered (registry {:?})", t, reg));
